@@ -2,10 +2,10 @@ package symmetry
 
 import (
 	"fmt"
-	"os"
-	"sort"
 	"go/token"
 	"go/types"
+	"os"
+	"sort"
 	"strings"
 
 	"golang.org/x/tools/go/ssa"
